@@ -112,6 +112,39 @@ def run_drive(sub, job, wd, profile="release", timeout=1800, crate=HARNESS, env=
     return json.loads(last[-1]) if last else {}
 
 
+def run_drive_items(sub, job, wd, profile="release", tag=None, timeout=3000):
+    """For drivers that feed untrusted inputs item by item (ids increasing in job order, `skip_upto` honoured): a single allocation
+    request beyond 4 GiB ends the process on purpose (exit 4, "VERIF-OOM id= size=", see harness/src/alloc.rs).  That is DATA about
+    the code under test, not a tool failure: the item is returned as an incident and the driver is restarted after it.
+    Returns (trace paths, incidents = [(id, size)])."""
+    exe = build_harness(profile)
+    out = job["out"]
+    jp = os.path.join(wd, "job_%s_%s.json" % (sub, tag or "x"))
+    traces, incidents = [], []
+    job = dict(job)
+    while True:
+        with open(jp, "w") as f:
+            json.dump(job, f)
+        e = dict(os.environ, VERIF_SEED=str(seed()))
+        try:
+            p = subprocess.run([exe, sub, jp], capture_output=True, text=True, timeout=timeout, env=e)
+        except subprocess.TimeoutExpired:
+            raise ToolError("driver %s timed out after %ss" % (sub, timeout))
+        if p.returncode == 0:
+            traces.append(out)
+            return traces, incidents
+        m = re.search(r"VERIF-OOM id=(\d+) size=(\d+)", p.stderr)
+        if p.returncode == 4 and m:
+            incidents.append((int(m.group(1)), int(m.group(2))))
+            part = "%s.part%d" % (out, len(incidents))
+            os.rename(out, part)
+            traces.append(part)
+            job["skip_upto"] = int(m.group(1))
+            continue
+        sys.stderr.write(p.stdout[-2000:] + p.stderr[-4000:])
+        raise ToolError("driver %s exited %s" % (sub, p.returncode))
+
+
 # ----------------------------------------------------------------------------- TLC
 def _tlc_cmd(module, cfg, metadir, workers, extra):
     return ["java", "-XX:+UseParallelGC", "-XX:ParallelGCThreads=%d" % (2 if workers <= 2 else 8), "-Xss1g", "-cp", TLA_CP + ":" + SPEC + ":" + os.path.dirname(module),
